@@ -5,6 +5,7 @@ import (
 	"encoding/json"
 	"flag"
 	"fmt"
+	"google.golang.org/protobuf/proto"
 	"math/rand"
 	"os"
 	"os/exec"
@@ -237,6 +238,11 @@ func storeRun(args []string) error {
 			switch k := r.Intn(12); {
 			case k <= 4:
 				pd := proj.Doc(storeDoc(r, id))
+				if r.Intn(12) == 0 && id != "" {
+					// a text field that is not valid UTF-8 cannot be written as protobuf: the store refuses, and the document
+					// handed in is still what it was (the projection cannot carry such text: the child sets it)
+					pd["badutf8"] = true
+				}
 				if r.Intn(5) == 0 {
 					pd["unk"] = 9 // fields this version of the schema does not know (written by a newer one) belong to the document
 				}
@@ -350,6 +356,16 @@ func storeChild(args []string) error {
 						doc.NodeList.ProtoReflect().SetUnknown(unk)
 					}
 				}
+				if doc != nil && obj(ev, "doc")["badutf8"] == true && doc.Metadata != nil {
+					doc.Metadata.Name = "caf\xe9 (latin-1)"
+					if doc.NodeList != nil && len(doc.NodeList.Nodes) > 0 {
+						doc.NodeList.Nodes[0].Comment = "\xff\xfe"
+					}
+				}
+				var before proto.Message
+				if doc != nil {
+					before = proto.Clone(doc)
+				}
 				nc, _ := ev["nc"].(bool)
 				// odd steps go through the writer's Store API with the backend installed, even steps call the backend directly
 				var err error
@@ -358,6 +374,9 @@ func storeChild(args []string) error {
 					err = writer.New(writer.WithStoreRetriever(backend)).StoreWithOptions(doc, &writer.Options{StoreOptions: &storage.StoreOptions{NoClobber: nc}})
 				} else {
 					err = backend.Store(doc, &storage.StoreOptions{NoClobber: nc})
+				}
+				if before != nil && !proto.Equal(before, doc) {
+					ev["docchanged"] = true // storing is serializing: the document handed in is not modified
 				}
 				if err != nil {
 					res["kind"], res["text"] = "err", err.Error()
